@@ -375,6 +375,37 @@ def main(argv=None):
         cc = crosscheck(jobs, results, seed, args.jobs)
         for mm in cc['mismatches']:
             engine_errors.append('cross-check: ' + mm)
+        # configurations with obligations the solver left undecided: evaluate the real code on random perturbations of the sampled inputs as well
+        # (sampled inputs are dyadic and often degenerate - equal coefficients, zeros - which hides differences)
+        try:
+            cc.setdefault('native_failures', []).extend(_probe_undecided(jobs, results, seed))
+        except Exception as e:
+            engine_errors.append(f'native probe of undecided configurations failed: {e}')
+        # clauses that the real code fails on a sampled input of the path conditions (e.g. while the solver ran out of budget on them)
+        reported = {(o['harness'], o['name'], json.dumps(o['config'], sort_keys=True)) for o, _, _ in violations}
+        reported |= {(o['harness'], o['name'], json.dumps(o['config'], sort_keys=True)) for _, o, _ in known_hits}
+        for job, nm, inp, nr in cc.get('native_failures', []):
+            mt = re.match(r'\[([C0-9, ]+)\] ', nm)
+            if mt and pid not in [x.strip() for x in mt.group(1).split(',')]:
+                continue
+            key = (job['name'], nm, json.dumps(job['config'], sort_keys=True))
+            if key in reported:
+                continue
+            reported.add(key)
+            o = dict(harness=job['name'], name=nm, config=job['config'], module=job['module'], fn=job['fn'], kind='post', backend='none', model=inp)
+            k = known_match(known, job['name'], nm, job['config'])
+            if k is not None:
+                known_hits.append((k, o, 'reproduced'))
+                groups.setdefault(key, []).append(o)
+                continue
+            h = hashlib.sha1((pid + job['name'] + nm + json.dumps(job['config'], sort_keys=True)).encode()).hexdigest()[:10]
+            path = os.path.join(EVDIR, 'replays', f'{pid}_{h}.json')
+            rec = dict(property=pid, obligation=nm, kind='post', harness=job['name'], module=job['module'], fn=job['fn'], config=job['config'], solver='none',
+                       solver_output='no solver verdict used: the clause fails on the real code for an input sampled from the explored path conditions (pre-conditions hold)',
+                       model=inp, native=nr, verdict='reproduced', replay_cmd=f'python3-vt -m pyvc.check {pid} --replay {path}')
+            json.dump(rec, open(path, 'w'), indent=1, default=str)
+            groups.setdefault(key, []).append(o)
+            violations.append((o, path, ''))
 
     # ------------------------------------------------------------------ verdict, evidence
     printed = set()
@@ -457,6 +488,41 @@ def main(argv=None):
     return 0
 
 
+def _probe_undecided(jobs, results, seed, per_job=8):
+    """for every configuration that has an obligation with status unknown: random perturbations of its sampled inputs, evaluated on the REAL code only;
+    returns (job, clause, input, native result) for every clause that fails on an input satisfying the pre-conditions"""
+    rnd = random.Random(seed * 17 + 3)
+    tasks, owners = [], []
+    for job, res in zip(jobs, results):
+        if res['error'] or not job.get('native', True) or not res.get('cc_inputs'):
+            continue
+        if not any(o['status'] not in ('discharged', 'refuted') for o in res['obligations']):
+            continue
+        for k in range(per_job):
+            base = dict(res['cc_inputs'][k % len(res['cc_inputs'])])
+            for key in base:
+                v = base[key]
+                if isinstance(v, bool) or not isinstance(v, (str, int, float)):
+                    continue
+                if isinstance(v, int) and not isinstance(v, bool):
+                    if rnd.random() < 0.3:
+                        base[key] = v + rnd.randint(-2, 2)
+                elif rnd.random() < 0.7:
+                    base[key] = str(fractions.Fraction(rnd.randint(-40, 40), 16))
+            tasks.append(dict(module=job['module'], fn=job['fn'], config=job['config'], inputs=base))
+            owners.append((job, base))
+    if not tasks:
+        return []
+    out = []
+    for (job, inp), n in zip(owners, native_batch(tasks)):
+        if n is None or n.get('status') != 'ok':
+            continue
+        for nm, okk in n.get('ensures', []):
+            if not okk:
+                out.append((job, nm, inp, n))
+    return out
+
+
 def crosscheck(jobs, results, seed, njobs):
     """concrete inputs satisfying the harness preconditions are drawn from the path conditions by the solver (dyadic values),
     the harness is executed concretely by the interpreter and natively by CPython; ensures/observations/exceptions must agree"""
@@ -503,6 +569,13 @@ def crosscheck(jobs, results, seed, njobs):
             cc['agreed'] += 1
         else:
             cc['mismatches'].append(f'{tag}: {why}; inputs={json.dumps(inp)[:300]}')
+        # an input that satisfies the pre-conditions and on which the REAL code fails a clause is a failing input, whatever the solver said
+        if n.get('status') == 'ok':
+            for nm, okk in n.get('ensures', []):
+                if not okk:
+                    cc.setdefault('native_failures', []).append((job, nm, inp, n))
+            if n.get('exception'):
+                cc.setdefault('native_failures', []).append((job, f"harness:no-unexpected-exception[{n['exception']}]", inp, n))
     return cc
 
 
